@@ -19,7 +19,7 @@ From DnsV Require Export Model.MultiValue.
 From DnsV Require Export Spec.MapOfLists.   (* only for the type op of operation histories *)
 Open Scope N_scope.
 
-Definition kv := (bytes * bytes)%type.
+Notation kv := (bytes * bytes)%type (only parsing).
 Definition store := bytes -> option bytes.
 
 Definition empty_store : store := fun _ => None.
